@@ -60,6 +60,7 @@ const (
 	sBlock = "c15-S-block"
 	sPass  = "c15-S-pass"
 	rCb    = "c15-cb-R"
+	hotQ   = "c15-hot-Q"
 	rOut   = "c15-out-R"
 	rPlain = "c15-plain"
 	sysRes = "c15-inbound"
@@ -118,6 +119,12 @@ func hotGen(g int64) []*hotspot.Rule {
 		return []*hotspot.Rule{pass(0), block(1)}
 	}
 	return []*hotspot.Rule{block(0), pass(1)}
+}
+
+// hotFixed: an un-churned pass-all QPS rule whose parameter cache (capacity 6) is hit with 8 values from all traffic
+// goroutines at once: cached lookups, insertions and evictions of the LRU run in parallel
+func hotFixed() []*hotspot.Rule {
+	return []*hotspot.Rule{{ID: "hotQ", Resource: hotQ, MetricType: hotspot.QPS, ControlBehavior: hotspot.Reject, ParamIndex: 0, Threshold: 1 << 40, DurationInSec: 1, ParamsMaxCapacity: 6}}
 }
 
 func sysGen(g int64) []*system.Rule {
@@ -255,6 +262,16 @@ func traffic(id int, rng *rand.Rand, n int, wg *sync.WaitGroup) {
 			}
 			atomic.AddInt64(&fixedChecks, 1)
 		case 6:
+			if rng.Intn(2) == 0 {
+				e, b := sentinel.Entry(hotQ, sentinel.WithArgs(rng.Intn(8)))
+				if b != nil {
+					report("C15/isolation-of-resources:always-pass-resource-blocked", fmt.Sprintf("a request on the un-churned pass-all hot-parameter resource was blocked: %v", b))
+				} else {
+					e.Exit()
+				}
+				atomic.AddInt64(&fixedChecks, 1)
+				break
+			}
 			e, b := sentinel.Entry(sPass)
 			if b != nil {
 				report("C15/isolation-of-resources:always-pass-resource-blocked", fmt.Sprintf("a request on the un-churned always-pass resource was blocked: %v", b))
@@ -311,6 +328,8 @@ func traffic(id int, rng *rand.Rand, n int, wg *sync.WaitGroup) {
 	}
 }
 
+const faultyStrategy = cb.Strategy(100)
+
 var fixedChecks int64
 var outChain *base.SlotChain
 
@@ -365,7 +384,7 @@ func updaters(stop *int32, rng *rand.Rand, wg *sync.WaitGroup) {
 	loop(func(g int64, r *rand.Rand) {
 		atomic.StoreInt64(&gHot.begun, g)
 		if r.Intn(2) == 0 {
-			hotspot.LoadRules(hotGen(g))
+			hotspot.LoadRules(append(hotFixed(), hotGen(g)...))
 		} else {
 			hotspot.LoadRulesOfResource(rHot, hotGen(g))
 		}
@@ -378,10 +397,18 @@ func updaters(stop *int32, rng *rand.Rand, wg *sync.WaitGroup) {
 	})
 	loop(func(g int64, r *rand.Rand) {
 		rules := []*cb.Rule{{Id: fmt.Sprint("cb", g), Resource: rCb, Strategy: cb.ErrorCount, RetryTimeoutMs: uint32(1 + g%50), MinRequestAmount: 1, StatIntervalMs: 1000, Threshold: float64(2 + g%5)}}
+		if r.Intn(6) == 0 {
+			// a rule of a user-registered strategy whose generator panics: the load fails (error), nothing may be
+			// left locked or half-built
+			rules = append(rules, &cb.Rule{Id: fmt.Sprint("faulty", g), Resource: rCb + "-faulty", Strategy: faultyStrategy, RetryTimeoutMs: 10, MinRequestAmount: 1, StatIntervalMs: 1000, Threshold: 1})
+		}
 		if r.Intn(2) == 0 {
 			cb.LoadRules(rules)
 		} else {
-			cb.LoadRulesOfResource(rCb, rules)
+			cb.LoadRulesOfResource(rCb, rules[:1])
+			if len(rules) > 1 {
+				cb.LoadRulesOfResource(rCb+"-faulty", rules[1:])
+			}
 		}
 		if r.Intn(10) == 0 {
 			cb.ClearRulesOfResource(rCb)
@@ -463,6 +490,9 @@ func main() {
 	run.Rule("round = 12 traffic goroutines x N requests over 9 resource kinds (generation-coded flow / isolation / hot-param / system resources, un-churned always-block / always-pass resources, breaker and outlier resources, plain resources) + 6 rule updaters (one per module, alternating whole-set and per-resource loads, clears) + 4 reader goroutines (every getter, node statistics, node list, per-second items) + a clock ticker, under the Go race detector. Each decision on a generation-coded resource must be a block by the block-all rule of ONE generation g with done-before-call <= g <= begun-before-return; un-churned resources must decide constantly. distinct = rounds (by number of generations switched).")
 	run.Assume("one updater goroutine per module (total order of generations)", "generation rules differ semantically between generations so that the managers cannot re-use the previous generation's controller object", "race reports are collected by the driver from GORACE log files; process death (panic, fatal error: concurrent map writes, checkptr) is reported by the driver as a violation")
 	clk = vclock.New(1900000000000)
+	_ = cb.SetCircuitBreakerGenerator(faultyStrategy, func(r *cb.Rule, reuseStat interface{}) (cb.CircuitBreaker, error) {
+		panic("user generator fails")
+	})
 	outChain = sentinel.BuildDefaultSlotChain()
 	outChain.AddRuleCheckSlot(outlier.DefaultSlot)
 	outChain.AddStatSlot(outlier.DefaultMetricStatSlot)
@@ -479,7 +509,7 @@ func main() {
 		isolation.LoadRules(nil)
 		held, _ := sentinel.Entry(rIso)
 		isolation.LoadRules(isoGen(0))
-		hotspot.LoadRules(hotGen(0))
+		hotspot.LoadRules(append(hotFixed(), hotGen(0)...))
 		system.LoadRules(sysGen(0))
 		gFlow, gIso, gHot, gSys = genCtl{}, genCtl{}, genCtl{}, genCtl{}
 		var stop int32
